@@ -150,6 +150,63 @@ def model_summary(m):
     return out
 
 
+def _child(job, conn):
+    try:
+        conn.send(verify_one(job))
+    except BaseException:  # noqa
+        q, fam, _ = job
+        conn.send({"target": q, "family": fam, "obligations": [], "error": traceback.format_exc(), "unsupported": None, "assumed": [], "warnings": []})
+    finally:
+        conn.close()
+
+
+def run_jobs(jobs, procs):
+    """one process per job (at most `procs` at a time) with a wall-clock deadline: a solver call that ignores its own
+    time limit, or a worker that dies, costs the obligations of that one job (reported as undecided), never the run"""
+    deadline = float(os.environ.get("VERIF_JOB_DEADLINE", "400"))
+    ctx = mp.get_context("fork")
+    pending = list(enumerate(jobs))
+    running = {}
+    results = [None] * len(jobs)
+
+    def lost(job, why):
+        q, fam, _ = job
+        return {"target": q, "family": fam, "obligations": [], "error": None, "unsupported": why, "assumed": [], "warnings": [], "wall": deadline}
+
+    while pending or running:
+        while pending and len(running) < procs:
+            k, job = pending.pop(0)
+            a, b = ctx.Pipe(duplex=False)
+            p = ctx.Process(target=_child, args=(job, b), daemon=True)
+            p.start()
+            b.close()
+            running[k] = (p, a, time.time(), job)
+        done = []
+        for k, (p, a, t0, job) in running.items():
+            if a.poll():
+                try:
+                    results[k] = a.recv()
+                except (EOFError, OSError):
+                    results[k] = lost(job, "worker process died")
+                done.append(k)
+            elif not p.is_alive():
+                results[k] = lost(job, "worker process died")
+                done.append(k)
+            elif time.time() - t0 > deadline:
+                p.terminate()
+                results[k] = lost(job, f"worker exceeded the wall-clock budget of {deadline:.0f}s (slice {job[2].get('slice')})")
+                done.append(k)
+        for k in done:
+            p, a, _, _ = running.pop(k)
+            p.join(timeout=5)
+            if p.is_alive():
+                p.kill()
+            a.close()
+        if not done:
+            time.sleep(0.05)
+    return results
+
+
 def run(props=None, only=None, both=False, cvc5=True, dump=False, repo_root=None, procs=None):
     from .source import Repo
 
@@ -179,11 +236,9 @@ def run(props=None, only=None, both=False, cvc5=True, dump=False, repo_root=None
         for k in range(n):
             jobs.append((q, fam, {"both": both, "cvc5": cvc5, "dump": dump, "repo": repo_root, "slice": (k, n)}))
     procs = procs or 16
-    ctx = mp.get_context("fork")
     # heaviest first
     jobs.sort(key=lambda j_: -j_[2]["slice"][1])
-    with ctx.Pool(procs, maxtasksperchild=4) as pool:
-        parts = pool.map(verify_one, jobs, chunksize=1) if jobs else []
+    parts = run_jobs(jobs, procs)
     # merge the slices of one function back into one result
     merged = {}
     order = []
